@@ -245,6 +245,7 @@ type c05Res struct {
 	pods         map[types.UID]c05Req
 	pendingDel   *schedulingv1alpha1.Reservation // global handler's DeleteReservation(old) not yet executed
 	unavailWithP bool                            // became unavailable/unmatchable while holding pods (for the non-trivial rule)
+	removals     int                             // pods taken off this reservation so far (model)
 }
 
 func (r *c05Res) bound() bool {
@@ -334,6 +335,20 @@ func TestVerifC05CacheHistory(t *testing.T) {
 		// flags for classes / the non-trivial rule
 		var ntUnassignAfterUnavail, ntDeleteWithPods, sawMasked, sawGhost, sawMove, sawResize, sawDelayed, sawRematch, sawMulti, sawAssumeErr, sawDouble bool
 		var sawNarrowHeld, sawWidenHeld, sawDimsChange, sawReserveCycle, sawUnreserve, sawUnreserveGone bool
+		// Snapshots the cache hands out (getReservationInfoByUID; the same Clone() is what BeforePreFilter, the nominator and
+		// state.assumed hold while a cycle is in flight) are what the fit check reads. One is taken of every reservation after
+		// every operation, together with what the model says it must report at that moment, and is re-examined after the
+		// next operations: a handed-out snapshot must keep reporting exactly that, whatever happens to the cache afterwards.
+		type c05Snap struct {
+			uid      types.UID
+			info     *frameworkext.ReservationInfo
+			want     map[corev1.ResourceName]int64
+			pods     []types.UID
+			takenAt  int
+			removals int
+		}
+		var snaps []c05Snap
+		sawSnapOutlivedRemoval, sawSnapOutlivedAdd := false, false
 		// the reservation lister follows the API objects
 		listerSet := func(o *schedulingv1alpha1.Reservation) {
 			if err := rIndexer.Update(o); err != nil {
@@ -374,6 +389,7 @@ func TestVerifC05CacheHistory(t *testing.T) {
 				return
 			}
 			delete(r.pods, p.uid)
+			r.removals++
 			if len(r.pods) == 0 {
 				r.widened = map[corev1.ResourceName]bool{}
 			}
@@ -656,6 +672,57 @@ func TestVerifC05CacheHistory(t *testing.T) {
 						}
 					}
 				}
+			}
+			// 6. snapshots handed out earlier still report what they reported when taken
+			for _, sn := range snaps {
+				got := c05SortedUIDs(sn.info.AssignedPods)
+				same := len(got) == len(sn.pods)
+				for i := 0; same && i < len(got); i++ {
+					same = got[i] == sn.pods[i]
+				}
+				if !same {
+					return c.Violation(t, "snapshot:assigned-pods-changed-after-handed-out", "%s: the snapshot of %s taken after %d ops listed pods %v, now lists %v; history=%v", where, sn.uid, sn.takenAt, sn.pods, got, hist)
+				}
+				for _, d := range c05Universe {
+					q := sn.info.Allocated[d]
+					if q.MilliValue() != sn.want[d] {
+						return c.Violation(t, "snapshot:allocated-ne-sum-of-its-assigned-pods", "%s: the snapshot of %s taken after %d ops lists pods %v (their counted requests sum to %s=%d milli) but now reports allocated %s=%d milli; history=%v",
+							where, sn.uid, sn.takenAt, sn.pods, d, sn.want[d], d, q.MilliValue(), hist)
+					}
+				}
+				if r := byUID[sn.uid]; r != nil && len(sn.pods) > 0 {
+					if r.removals > sn.removals {
+						sawSnapOutlivedRemoval = true
+					} else if r.inCache && len(r.pods) > len(sn.pods) {
+						sawSnapOutlivedAdd = true
+					}
+				}
+			}
+			// keep the snapshots of the last three operations, take fresh ones
+			kept := snaps[:0]
+			for _, sn := range snaps {
+				if sn.takenAt+3 > len(hist) {
+					kept = append(kept, sn)
+				}
+			}
+			snaps = kept
+			for _, r := range ress {
+				if !r.inCache {
+					continue
+				}
+				info := cache.getReservationInfoByUID(r.uid)
+				if info == nil {
+					continue
+				}
+				want := map[corev1.ResourceName]int64{}
+				for _, req := range r.pods {
+					for d, v := range req {
+						if r.names[d] {
+							want[d] += c05Milli(d, v)
+						}
+					}
+				}
+				snaps = append(snaps, c05Snap{uid: r.uid, info: info, want: want, pods: c05SortedUIDs(r.pods), takenAt: len(hist), removals: r.removals})
 			}
 			return false
 		}
@@ -1227,6 +1294,8 @@ func TestVerifC05CacheHistory(t *testing.T) {
 		c.ClassIf(sawMulti, "reservation-with-2+-pods")
 		c.ClassIf(sawAssumeErr, "assume-refused")
 		c.ClassIf(sawDouble, "second-pod-on-allocate-once(forced)")
+		c.ClassIf(sawSnapOutlivedRemoval, "snapshot-with-pods-outlived-a-pod-removal")
+		c.ClassIf(sawSnapOutlivedAdd, "snapshot-with-pods-outlived-a-pod-add")
 		c.ClassIf(sawDimsChange, "counted-dims-changed-by-update")
 		c.ClassIf(sawNarrowHeld, "counted-dims-narrowed-while-held")
 		c.ClassIf(sawWidenHeld, "counted-dims-widened-while-held")
